@@ -124,7 +124,7 @@ func runScripts(e *lib.Env) (int, int, []string) {
 				continue
 			}
 			seen[k] = true
-			v.M = append(v.M, KV{k, genV(d + 1)})
+			v.M = append(v.M, KV{K: k, V: genV(d + 1)})
 		}
 		return v
 	}
